@@ -9,6 +9,7 @@ import SysLoss.Driver.Diag
 import SysLoss.Driver.Batt
 import SysLoss.Driver.Probe
 import SysLoss.Driver.Reports
+import SysLoss.Driver.Tables
 
 open Lean SysLoss
 
@@ -24,6 +25,7 @@ def dispatch (j : Json) : Json :=
   | "batt" => cmdBatt j            -- battery-life loop (C18)
   | "interp" | "ctor" => cmdProbe j  -- interpolators and constructors (C10, C11)
   | "reports" => if fl then cmdReports (α := Float) j else cmdReports (α := Rat) j   -- params / limits / phases / tree (C16)
+  | "tables" => cmdTables j        -- constant tables: limit keys, child types, default limits (C09, C14)
   | "ping" => Json.mkObj [("ok", true)]
   | _ => Json.mkObj [("bad-op", cmd)]
 
